@@ -279,6 +279,12 @@ class Create:
             dt = dtn(e.obj) if rng.random() < 0.8 else dt
             if rng.random() < 0.3 and M is not None:
                 N, M = (M, N) if rng.random() < 0.5 else (N, N)
+        if N is not None:
+            # a shape copied from a heap object may have grown (Kronecker products, padding, reshapes): kinds that
+            # build a dense array first, and any kind with very large modes, fall back to a fresh small shape
+            tot = int(np.prod(N)) * (int(np.prod(M)) if M is not None else 1)
+            if tot > 50000 or max(N) > 64 or len(N) > MAX_ORDER:
+                N, M = None, None
         if N is None:
             N = rshape(rng)
         d = len(N)
@@ -616,9 +622,12 @@ def _factorizations(n, rng, maxlen=4):
 class Reshape:
     @staticmethod
     def pick(rng, S):
-        if not S.entries:
+        # merging modes builds cores as large as the merged modes: keep to objects whose dense array is moderate
+        # (an operator grown to 19600 x 19600 by Kronecker products and padding kept one SVD busy for minutes)
+        c = S.objs(lambda a: dense_numel(a) <= MAX_DENSE)
+        if not c:
             return None
-        x = rng.choice(list(S.entries.values()))
+        x = rng.choice(c)
         o = x.obj
         nN = int(np.prod(gen.ints(o.N)))
         shN = _factorizations(nN, rng)
